@@ -163,6 +163,26 @@ Definition kstep_enum_case_fold (s : schema) (a : action) (rest : list action) :
   | _ => false
   end.
 
+(* K9, second shape: the folded name is the name of ANOTHER enum type that exists (e.g. item_Status next to item_status):
+   nothing fails where the column is created or retyped, the column silently gets the other type, and that type can then
+   not be dropped while this column uses it *)
+Definition introduced_unquoted (s : schema) (a : action) : list string :=
+  match a with
+  | CreateTable t cols _ => string_enum_types t cols
+  | AddColumn t col _ => string_enum_types t [col]
+  | ModifyColumnType t c nt _ =>
+      if opt_type_is is_enum_type (col_type_in s t c) then []
+      else string_enum_types t [mkCol c nt true None None None None None None]
+  | _ => []
+  end.
+Definition lower_ascii (x : string) : string := map_string to_lower_ascii_char x.
+Definition kstep_enum_case_fold_existing (s : schema) (a : action) (rest : list action) : bool :=
+  existsb (fun n => (has_upper n
+                     && mem_str (lower_ascii n)
+                                (flat_map (fun t => string_enum_types (t_name t) (t_columns t)) s
+                                 ++ filter (fun m => negb (String.eqb m n)) (introduced_unquoted s a)))%bool)
+          (introduced_unquoted s a).
+
 (* K10 (DESIGN D16): {table}_{enum} is also the name of a table (its row type) *)
 Definition all_enum_type_names (s : schema) : list string :=
   flat_map (fun t => string_enum_types (t_name t) (t_columns t)) s.
@@ -280,6 +300,34 @@ Definition kstep_reference_before_key (s : schema) (a : action) (rest : list act
   | _ => false
   end.
 
+(* K18: DeleteColumn of a column whose NAME also occurs in ref_columns of one of the table's foreign keys (typically a
+   local column `id` next to a foreign key to other(id)): apply.rs:355-380 drop_column_from_constraints also filters
+   ref_columns, so the foreign key is shrunk or dropped from the baseline although nothing happens to it in the database *)
+Definition kstep_fk_lost_by_column_drop (s : schema) (a : action) (rest : list action) : bool :=
+  match a with
+  | DeleteColumn t c =>
+      existsb (fun k => match k with
+                        | CForeignKey _ cols _ rcols _ _ => (mem_str c rcols && negb (mem_str c cols))%bool
+                        | _ => false
+                        end) (table_constraints s t)
+  | _ => false
+  end.
+(* ... its sequel: the columns keep their inline foreign_key / unique / index fields, the baseline table is no longer a
+   fix-point of normalize, and the next AddColumn on that table (which re-normalises it, apply.rs:32-60) promotes the
+   inline declarations again: the baseline regains constraints for which no statement is emitted *)
+Definition kstep_inline_resurrected (s : schema) (a : action) (rest : list action) : bool :=
+  match a with
+  | AddColumn t _ _ =>
+      match table_named t s with
+      | Some td => match normalize td with
+                   | Ok n => negb (Nat.eqb (List.length (t_constraints n)) (List.length (t_constraints td)))
+                   | Err _ => false
+                   end
+      | None => false
+      end
+  | _ => false
+  end.
+
 (* K14: RenameTable / RenameColumn and foreign keys: apply.rs:310-353 renames inside ref_columns of the table's OWN
    foreign keys (which name columns of another table) and never touches the foreign keys of other tables that
    reference the renamed column *)
@@ -298,8 +346,11 @@ Definition kstep_rename_fk_refs (s : schema) (a : action) (rest : list action) :
   end.
 
 (* ---------- attribution of a failing case to the classes ----------
-   A class whose baseline condition holds explains everything (the migration starts from a catalog PostgreSQL
-   cannot be in).  Otherwise a class explains an engine error only if (a) one of its steps occurs at or before the failing action and
+   Attribution is by SHAPE and by OBJECT: a class explains a failure only when one of its trigger steps (or its
+   baseline condition) is about the same table as the failing statement / the differing object, so that a different
+   defect with the same symptom elsewhere in the plan is still reported.
+   A class whose baseline condition holds for a table explains what concerns that table (the migration starts from a
+   catalog PostgreSQL cannot be in).  Otherwise a class explains an engine error only if (a) one of its steps occurs at or before the failing action and
    (b) the violated rule is one the class can cause; it explains a catalog difference item only if the kind of
    item is one the class can cause.  A case is attributed to known findings only if its error is explained, or
    EVERY difference item is explained, by a class that fires on it. *)
@@ -357,55 +408,116 @@ Definition table_names_clash (t : table_def) : bool :=
                        ++ flat_map (fun k => match k with CCheck n _ => [n] | _ => [] end) ks
                        ++ (if existsb is_pk ks then [t_name t +++ "_pkey"] else []))))%bool.
 Definition kbase_duplicate_name (s : schema) : bool := existsb table_names_clash s.
-Definition no_base (s : schema) : bool := false.
+
+(* ---------- which tables a step / an error / a difference is about ---------- *)
+Definition action_tables (a : action) : list string :=
+  match a with
+  | CreateTable t _ _ | DeleteTable t | AddColumn t _ _ | RenameColumn t _ _ | DeleteColumn t _
+  | ModifyColumnType t _ _ _ | ModifyColumnNullable t _ _ _ | ModifyColumnDefault t _ _ | ModifyColumnComment t _ _
+  | AddConstraint t _ | RemoveConstraint t _ => [t]
+  | RenameTable a b => [a; b]
+  | RawSql _ => []
+  end.
+Definition err_tables (e : pg_error) : list string :=
+  match e with
+  | ENoTable t | ENoColumn t _ | EColumnExists t _ | ENoConstraint t _ | EConstraintExists t _
+  | EFkArity t | EMultiplePk t | EPkColumnNullable t _ => [t]
+  | EDependentFk t bt _ => [t; bt]
+  | EFkNoUniqueTarget t rt => [t; rt]
+  | ERelationExists _ | ETypeExists _ | ENoIndex _ | ENoType _ | ETypeInUse _ | EIndexBacksConstraint _
+  | ELabelExists _ _ | ESyntax _ => []
+  end.
+Definition diff_about (touched : list string) (d : diff_item) : bool :=
+  match d with
+  | DMissingTable t | DExtraTable t | DMissingColumn t _ | DExtraColumn t _ | DColumnDiffers t _ _
+  | DMissingIndex t _ | DExtraIndex t _ | DIndexDiffers t _
+  | DMissingConstraint t _ | DExtraConstraint t _ | DConstraintDiffers t _ => mem_str t touched
+  (* an enum type is about table t when it is called {t}_... *)
+  | DMissingType n | DExtraType n | DTypeLabels n => existsb (fun t => starts_with (t +++ "_") n) touched
+  end.
+Definition referencing_tables (s : schema) (target : string) : list string :=
+  flat_map (fun x => if existsb (fk_to target (fun _ => true)) (t_constraints x) then [t_name x] else []) s.
 
 Record kclass := mkClass {
   kc_name : string;
-  kc_base : schema -> bool;      (* a condition on the baseline alone *)
-  kc_step : schema -> action -> list action -> bool;
+  kc_base : schema -> list string;  (* tables whose state in the BASELINE is already impossible ([] = fine) *)
+  kc_step : schema -> action -> list action -> bool;   (* the shape of the step that triggers the defect *)
+  kc_extra : schema -> action -> list string;          (* tables affected besides those the action names *)
   kc_errors : list nat;          (* error codes (CorrPg.error_code) the class can cause *)
   kc_diffs : list dkind }.       (* kinds of catalog difference the class can cause *)
 
 Definition index_con_diffs : list dkind :=
   [DkMissingIndex; DkExtraIndex; DkIndexDiffers; DkMissingCon; DkExtraCon; DkConDiffers].
+Definition no_extra (s : schema) (a : action) : list string := [].
+Definition extra_referencing (s : schema) (a : action) : list string :=
+  flat_map (referencing_tables s) (action_tables a).
+Definition no_base_t (s : schema) : list string := [].
+Definition base_duplicate_tables (s : schema) : list string :=
+  flat_map (fun t => if table_names_clash t then [t_name t] else []) s.
+Definition base_dangling_tables (s : schema) : list string :=
+  flat_map (fun t => flat_map (fun k => match k with
+                                        | CForeignKey _ _ rt rcols _ _ =>
+                                            match table_named rt s with
+                                            | None => [t_name t; rt]
+                                            | Some r => if forallb (fun c => has_column c r) rcols then [] else [t_name t; rt]
+                                            end
+                                        | _ => []
+                                        end) (t_constraints t)) s.
 
 Definition classes : list kclass :=
-  [ mkClass "known_C03_check_in_create" no_base kstep_check_in_create [7] [DkMissingCon]
-  ; mkClass "known_C03_shared_enum" no_base kstep_shared_enum [10; 2] []
-  ; mkClass "known_C03_int_enum" no_base kstep_int_enum [9; 18] []
-  ; mkClass "known_C03_drop_before_unreference" no_base kstep_drop_before_unreference [11] []
-  ; mkClass "known_C03_composite_member" no_base
-            (fun s a r => (kstep_composite_member s a r || kstep_member_then_remove s a r)%bool)
+  [ mkClass "known_C03_check_in_create" no_base_t kstep_check_in_create no_extra [7] [DkMissingCon]
+  ; mkClass "known_C03_shared_enum" no_base_t kstep_shared_enum no_extra [10; 2] []
+  ; mkClass "known_C03_int_enum" no_base_t kstep_int_enum no_extra [9; 18] []
+  ; mkClass "known_C03_drop_before_unreference" no_base_t kstep_drop_before_unreference no_extra [11] []
+  ; mkClass "known_C03_composite_member" no_base_t
+            (fun s a r => (kstep_composite_member s a r || kstep_member_then_remove s a r)%bool) no_extra
             [6; 7] (DkColNotnull :: index_con_diffs)
-  ; mkClass "known_C03_rename_table_names" no_base kstep_rename_table_names [6; 7; 9; 2; 1; 8]
+  ; mkClass "known_C03_rename_table_names" no_base_t kstep_rename_table_names no_extra [6; 7; 9; 2; 1; 8]
             (DkColType :: DkMissingType :: DkExtraType :: DkTypeLabels :: index_con_diffs)
-  ; mkClass "known_C03_rename_column_names" no_base kstep_rename_column_names [6; 7; 1; 8] index_con_diffs
-  ; mkClass "known_C03_enum_left_by_drop_table" no_base kstep_enum_left_by_drop_table [2] [DkExtraType]
-  ; mkClass "known_C03_enum_case_fold" no_base kstep_enum_case_fold [9] [DkColType]
-  ; mkClass "known_C03_enum_vs_row_type" no_base kstep_enum_vs_row_type [2] []
-  ; mkClass "known_C03_duplicate_name" kbase_duplicate_name kstep_duplicate_name [1; 8; 6; 7] index_con_diffs
-  ; mkClass "known_C03_autoinc_by_alter" no_base kstep_autoinc_by_alter [] [DkColAuto]
-  ; mkClass "known_C03_inline_promoted" no_base kstep_inline_promoted [1; 8] index_con_diffs
-  ; mkClass "known_C03_rename_fk_refs" kbase_dangling_fk kstep_rename_fk_refs [] [DkConDiffers]
-  ; mkClass "known_C03_key_replaced_under_fk" no_base kstep_key_replaced_under_fk [11] []
-  ; mkClass "known_C03_reference_before_key" no_base kstep_reference_before_key [13; 3; 4] [] ].
+  ; mkClass "known_C03_rename_column_names" no_base_t kstep_rename_column_names no_extra [6; 7; 1; 8] index_con_diffs
+  ; mkClass "known_C03_enum_left_by_drop_table" no_base_t kstep_enum_left_by_drop_table no_extra [2] [DkExtraType]
+  ; mkClass "known_C03_enum_case_fold" no_base_t kstep_enum_case_fold no_extra [9] [DkColType]
+  ; mkClass "known_C03_enum_case_fold" no_base_t kstep_enum_case_fold_existing no_extra [10; 2] [DkColType]
+  ; mkClass "known_C03_enum_vs_row_type" no_base_t kstep_enum_vs_row_type no_extra [2] []
+  ; mkClass "known_C03_duplicate_name" base_duplicate_tables kstep_duplicate_name no_extra [1; 8; 6; 7] index_con_diffs
+  ; mkClass "known_C03_autoinc_by_alter" no_base_t kstep_autoinc_by_alter no_extra [] [DkColAuto]
+  ; mkClass "known_C03_inline_promoted" no_base_t kstep_inline_promoted no_extra [1; 8] index_con_diffs
+  ; mkClass "known_C03_rename_fk_refs" base_dangling_tables kstep_rename_fk_refs extra_referencing [] [DkConDiffers]
+  ; mkClass "known_C03_key_replaced_under_fk" no_base_t kstep_key_replaced_under_fk no_extra [11] []
+  ; mkClass "known_C03_reference_before_key" no_base_t kstep_reference_before_key no_extra [13; 3; 4] []
+  ; mkClass "known_C03_fk_lost_by_column_drop" no_base_t kstep_fk_lost_by_column_drop no_extra [] [DkExtraCon; DkConDiffers]
+  ; mkClass "known_C03_fk_lost_by_column_drop" no_base_t kstep_inline_resurrected no_extra [8; 1] index_con_diffs ].
 Definition class_names : list string := map kc_name classes.
 
 Definition mem_nat (n : nat) (l : list nat) : bool := existsb (Nat.eqb n) l.
 Definition mem_dkind (d : dkind) (l : list dkind) : bool := existsb (dkind_eqb d) l.
+Definition meets (a b : list string) : bool := existsb (fun x => mem_str x b) a.
+
+(* the tables touched by the steps (at most n of them) on which the class fires *)
+Fixpoint touched_upto (n : nat) (c : kclass) (s : schema) (acts : list action) : list string :=
+  match n, acts with
+  | O, _ | _, [] => []
+  | S n', a :: r =>
+      (if kc_step c s a r then action_tables a ++ kc_extra c s a else [])
+      ++ touched_upto n' c (step_schema s a) r
+  end.
 
 (* (bits per class, explained?) *)
 Definition attribute (k : pg_case) (o : outcome) : list bool * bool :=
+  let b := g_baseline k in
+  let acts := g_actions k in
   match o with
   | OEngineError ai _ e =>
-      let bits := map (fun c => (kc_base c (g_baseline k)
+      (* what the failing statement is about: the tables its action names and those the error names *)
+      let about := match nth_error acts ai with Some a => action_tables a | None => [] end ++ err_tables e in
+      let bits := map (fun c => (meets about (kc_base c b)
                                  || (mem_nat (error_code e) (kc_errors c)
-                                     && exists_step_upto (S ai) (kc_step c) (g_baseline k) (g_actions k)))%bool) classes in
-      (bits, existsb (fun b => b) bits)
+                                     && meets about (touched_upto (S ai) c b acts)))%bool) classes in
+      (bits, existsb (fun x => x) bits)
   | ODiff d =>
       let explains (c : kclass) (x : diff_item) :=
-        (kc_base c (g_baseline k)
-         || (exists_step (kc_step c) (g_baseline k) (g_actions k) && mem_dkind (dkind_of x) (kc_diffs c)))%bool in
+        (diff_about (kc_base c b) x
+         || (mem_dkind (dkind_of x) (kc_diffs c) && diff_about (touched_upto (List.length acts) c b acts) x))%bool in
       let bits := map (fun c => existsb (explains c) d) classes in
       (bits, forallb (fun x => existsb (fun c => explains c x) classes) d)
   | _ => (map (fun _ => false) classes, false)
@@ -432,6 +544,7 @@ Definition known_C03_inline_promoted := known_by "known_C03_inline_promoted".
 Definition known_C03_rename_fk_refs := known_by "known_C03_rename_fk_refs".
 Definition known_C03_key_replaced_under_fk := known_by "known_C03_key_replaced_under_fk".
 Definition known_C03_reference_before_key := known_by "known_C03_reference_before_key".
+Definition known_C03_fk_lost_by_column_drop := known_by "known_C03_fk_lost_by_column_drop".
 
 (* rows for the driver: every case that is not OOk, with its attribution *)
 Fixpoint report_from (i : nat) (cs : list pg_case)
